@@ -4,7 +4,7 @@ import (
 	"os"
 	"runtime/pprof"
 
-	"verifharness/internal/c11"
+	"verifharness/internal/c12"
 	"verifharness/internal/evid"
 )
 
@@ -15,5 +15,5 @@ func main() {
 			defer pprof.StopCPUProfile()
 		}
 	}
-	evid.Main(c11.Spec(), os.Args[2:]) // os.Args[1] is the property id
+	evid.Main(c12.Spec(), os.Args[2:]) // os.Args[1] is the property id
 }
